@@ -86,6 +86,18 @@ func init() {
 		{`$.**{3}.double()`, `[[["1"]],2]`}, {`$.**{2 to 3}.a`, `[[{"a":1},[{"a":2}]],3,[4]]`}, {`strict $.**{2}.type()`, `{"a":{"b":1},"c":2,"d":{"e":3}}`}, {`$.**{3 to last} ? (@ > 0)`, `[[[1,[2]]],0,[[3]]]`}} {
 		c20Pool = append(c20Pool, struct{ p, d string }{pd[0], pd[1]})
 	}
+	// wide containers under every step that fans out: after the step at which
+	// the context became done, the remaining members / elements are not visited
+	var mem, el []string
+	for i := 0; i < 30; i++ {
+		mem = append(mem, fmt.Sprintf(`"k%02d":{"x":%d}`, i, i))
+		el = append(el, fmt.Sprintf(`{"x":%d}`, i))
+	}
+	wide := fmt.Sprintf(`{"o":{%s},"a":[%s]}`, strings.Join(mem, ","), strings.Join(el, ","))
+	for _, p := range []string{`$.o.keyvalue().value`, `$.o.keyvalue().key`, `$.o.keyvalue().value.x`, `$.o.keyvalue() ? (@.value.x > 1).key`, `$.o.*.x`, `$.a[*].x`, `$.a[0 to last].x`, `$.**.x`, `$.o.*.keyvalue().key`,
+		`-$.a[*].x`, `$.a[*].x.abs()`, `$.a[*] ? (@.x > 3).x`, `strict $.o.keyvalue().value.x`, `strict $.a[*].x.type()`, `$.o.** ? (@.x > 1).x`, `$.a[*].keyvalue().value`} {
+		c20Pool = append(c20Pool, struct{ p, d string }{p, wide})
+	}
 	for _, p := range []string{`$.a[*] == $.b[*]`, `$ ? (@.a[*] == @.b[*])`, `($.a[*] > $.b[*]) is unknown`, `strict $.a[*] == $.b[*]`, `$.a[*] == $.b[*] || $.a[0] == 0`,
 		`$.t[*].time() < $.z.time_tz()`, `$.a[*] ? (@ == $.b[*])`} {
 		c20Pool = append(c20Pool, struct{ p, d string }{p, big})
